@@ -344,10 +344,14 @@ def tokens(d, v1=False):
                 t += ['VARIATION', var['name']]
                 if var.get('syntax') is not None:
                     t += ['SYNTAX'] + var['syntax'].tokens()
+                if var.get('write_syntax') is not None:
+                    t += ['WRITE-SYNTAX'] + var['write_syntax'].tokens()
                 if var.get('access') is not None:
                     t += ['ACCESS', var['access']]
                 if var.get('creation') is not None:
                     t += ['CREATION-REQUIRES', '{'] + name_list(var['creation']) + ['}']
+                if var.get('defval') is not None:
+                    t += ['DEFVAL', '{', var['defval'], '}']
                 t += ['DESCRIPTION', q(var['descr'])]
         return t + o()
     if k == 'type':
